@@ -2,7 +2,7 @@
 import lanes
 
 PROPERTIES_FILE = "Properties/Properties_C02.v"
-COQ_DEPS = ["Proofs/Lane_iface.vo", "Proofs/SLane_progress.vo"]
+COQ_DEPS = ["Proofs/Lane_iface.vo", "Proofs/SLane_progress.vo", "Proofs/SLane_measure.vo"]
 EXTRA_PROPERTIES_FILES = ["Properties/Properties_C02_slane.v"]
 GEN_MODULES = ["Gen_dqstate", "Gen_lanesites", "Gen_once"]
 LEVEL = "proof"
